@@ -368,7 +368,8 @@ func (m *Muxer) closeFragment(isLast bool) error {
 func (m *Muxer) writeRecordPlaylist() {
 	// 找出整个直播流从开始到结束最大的分片时长
 	currFrag := m.getClosedFrag()
-	if currFrag.duration > m.recordMaxFragDuration {
+	// 注意，recordMaxFragDuration保存的是已经加了0.5的值，比较时需要把0.5去掉，原因同 writePlaylist
+	if currFrag.duration+0.5 > m.recordMaxFragDuration {
 		m.recordMaxFragDuration = currFrag.duration + 0.5
 	}
 
@@ -416,12 +417,20 @@ func (m *Muxer) writeRecordPlaylist() {
 
 func (m *Muxer) writePlaylist(isLast bool) {
 	// 找出时长最长的fragment
+	// 注意，先取所有fragment中的最大时长，最后再统一做四舍五入。
+	// 如果边比较边加0.5，后面时长更大、但没有超过"前面的时长+0.5"的fragment会被漏掉，
+	// 导致EXT-X-TARGETDURATION小于某个fragment四舍五入后的时长
 	maxFrag := float64(m.config.FragmentDurationMs) / 1000
+	exceed := false
 	m.iterateFragsInPlaylist(func(frag *fragmentInfo) {
 		if frag.duration > maxFrag {
-			maxFrag = frag.duration + 0.5
+			maxFrag = frag.duration
+			exceed = true
 		}
 	})
+	if exceed {
+		maxFrag += 0.5
+	}
 
 	// TODO chef 优化这块buffer的构造
 	var buf bytes.Buffer
